@@ -1,6 +1,9 @@
-"""C05 — engine property (see DESIGN.md section 6): theorems over coq/model/Engine.v + commit-level correspondence."""
-from harness import engine_corr
-from harness.lib import RunResult
+"""C05 — when the engine goes quiet every workflow is finished or explicitly waiting: theorems about
+determine_status / _determine_final_status (tied to the code by exhaustive differentials) and engine runs."""
+import itertools
+
+from harness import engine_corr, lib
+from harness.lib import RunResult, cq_bool, cq_list
 
 PID = "C05"
 COQ_TARGETS = ["props/C05.vo"]
@@ -12,8 +15,140 @@ ASSUMPTIONS = ["one handler runs at a time (sequential engine model); races are 
                "delayed messages are delivered only when no undelayed message is pending (wall-clock realism of the schedule generator)"]
 
 
+def status_cases(ctx):
+    """determine_status on real StageExecution objects with real synthetic children"""
+    lib.ensure_repo_on_path()
+    from stabilize.models.stage import StageExecution, SyntheticStageOwner
+    from stabilize.models.status import WorkflowStatus
+    from stabilize.models.task import TaskExecution
+    from stabilize.models.workflow import Workflow
+    sts = list(WorkflowStatus)
+    thorough = ctx.tier == "thorough"
+    rng = ctx.rng
+    shapes = []
+    for nb, nt, na in itertools.product(range(0, 3), range(0, 4), range(0, 3)):
+        n = nb + nt + na
+        if n == 0:
+            shapes.append((nb, nt, na, ()))
+            continue
+        if n <= (3 if thorough else 2):
+            for combo in itertools.product(range(len(sts)), repeat=n):
+                shapes.append((nb, nt, na, combo))
+        else:
+            for _ in range(60 if thorough else 12):
+                shapes.append((nb, nt, na, tuple(rng.randrange(len(sts)) for _ in range(n))))
+    cases, raw = [], []
+    for (nb, nt, na, combo) in shapes:
+        for self_st in (WorkflowStatus.RUNNING, WorkflowStatus.NOT_STARTED):
+            for cof, fp in ((False, True), (True, True), (False, False)):
+                ctxd = {}
+                if cof:
+                    ctxd["continuePipelineOnFailure"] = True
+                if not fp:
+                    ctxd["failPipeline"] = False
+                parent = StageExecution(ref_id="p", status=self_st, context=ctxd,
+                                        tasks=[TaskExecution(name=f"t{i}", status=sts[combo[nb + i]]) for i in range(nt)])
+                kids = []
+                for i in range(nb):
+                    kids.append(StageExecution(ref_id=f"b{i}", status=sts[combo[i]], parent_stage_id=parent.id,
+                                               synthetic_stage_owner=SyntheticStageOwner.STAGE_BEFORE))
+                for i in range(na):
+                    kids.append(StageExecution(ref_id=f"a{i}", status=sts[combo[nb + nt + i]], parent_stage_id=parent.id,
+                                               synthetic_stage_owner=SyntheticStageOwner.STAGE_AFTER))
+                wf = Workflow(application="v", name="v", stages=[parent] + kids)
+                for s in wf.stages:
+                    s.set_execution_strong(wf)
+                got = parent.determine_status()
+                b = [sts[k].name for k in combo[:nb]]
+                t = [sts[k].name for k in combo[nb:nb + nt]]
+                a = [sts[k].name for k in combo[nb + nt:]]
+                cases.append("(%s, %s, %s, %s, %s, %s, %s)" % (self_st.name, cq_bool(cof), cq_bool(fp), cq_list(b), cq_list(t), cq_list(a), got.name))
+                raw.append({"self": self_st.name, "cof": cof, "fp": fp, "before": b, "tasks": t, "after": a, "impl": got.name})
+    return cases, raw
+
+
+def final_cases(ctx):
+    lib.ensure_repo_on_path()
+    from stabilize.handlers.complete_workflow import CompleteWorkflowHandler
+    from stabilize.models.stage import StageExecution
+    from stabilize.models.status import WorkflowStatus
+    from stabilize.models.workflow import Workflow
+    from stabilize.queue.messages import CompleteWorkflow
+    sts = list(WorkflowStatus)
+    thorough = ctx.tier == "thorough"
+    rng = ctx.rng
+
+    class Q:
+        def __init__(self):
+            self.pushed = []
+
+        def push(self, m, delay=None):
+            self.pushed.append(m)
+    lists = [()]
+    for n in (1, 2):
+        lists += list(itertools.product(range(len(sts)), repeat=n))
+    tri = list(itertools.product(range(len(sts)), repeat=3))
+    lists += tri if thorough else rng.sample(tri, 300)
+    lists += [tuple(rng.randrange(len(sts)) for _ in range(rng.randint(4, 6))) for _ in range(300 if thorough else 80)]
+    cases, raw = [], []
+    for combo in lists:
+        for chain in (False, True):          # chain: each stage depends on the previous one (upstream-complete flag varies)
+            for override in (False, True):
+                for rc, mx in ((0, 240), (240, 240), (5, 3)):
+                    stages = []
+                    for i, k in enumerate(combo):
+                        ctxd = {"completeOtherBranchesThenFail": True} if (override and sts[k] == WorkflowStatus.STOPPED) else {}
+                        stages.append(StageExecution(ref_id=f"s{i}", status=sts[k], context=ctxd,
+                                                     requisite_stage_ref_ids=({f"s{i-1}"} if (chain and i > 0) else set())))
+                    wf = Workflow(application="v", name="v", stages=stages)
+                    for s in wf.stages:
+                        s.set_execution_strong(wf)
+                    q = Q()
+                    h = CompleteWorkflowHandler(q, None)
+                    import dataclasses
+                    h.handler_config = dataclasses.replace(h.handler_config, max_stage_wait_retries=mx)
+                    got = h._determine_final_status(wf, CompleteWorkflow(execution_type="PIPELINE", execution_id=wf.id, retry_count=rc))
+                    ov = override and any(sts[k] == WorkflowStatus.STOPPED for k in combo)
+                    view = []
+                    for i, k in enumerate(combo):
+                        upc = True if not (chain and i > 0) else (sts[combo[i - 1]].name in ("SUCCEEDED", "FAILED_CONTINUE", "SKIPPED", "REDIRECT"))
+                        view.append(f"({sts[k].name}, {cq_bool(upc)})")
+                    exp = "Requeue" if got is None else f"(Final {got.name})"
+                    if got is None and not (len(q.pushed) == 1 and q.pushed[0].retry_count == rc + 1):
+                        exp = "(Final NOT_STARTED)"   # impossible marker: a None result must re-queue with retry_count + 1
+                    cases.append("(%s, %s, %d%%Z, %d%%Z, %s)" % (cq_list(view), cq_bool(ov), rc, mx, exp))
+                    raw.append({"stages": [sts[k].name for k in combo], "chain": chain, "override": ov, "retry": rc, "max": mx,
+                                "impl": None if got is None else got.name})
+    return cases, raw
+
+
 def run(ctx) -> RunResult:
     res = RunResult()
+    c1, r1 = status_cases(ctx)
+    f1, e1 = lib.coq_failing_indices(
+        "From Stab.model Require Import StatusM StageStat.",
+        "fun c => match c with (self, cof, fp, b, t, a, got) => status_eqb (determine_status self cof fp b t a) got end",
+        "status * bool * bool * list status * list status * list status * status", c1, "c05_ds", shard=1500)
+    c2, r2 = final_cases(ctx)
+    f2, e2 = lib.coq_failing_indices(
+        "From Stab.model Require Import StatusM StageStat.",
+        "fun c => match c with (view, ov, rc, mx, exp) => match determine_final_status view ov rc mx, exp with "
+        "| Requeue, Requeue => true | Final x, Final y => status_eqb x y | _, _ => false end end",
+        "list (status * bool) * bool * Z * Z * final_decision", c2, "c05_fs", shard=1500)
+    if e1 or e2:
+        res.disagreements.append({"what": "StageStat model evaluation failed", "detail": (e1 + e2)[:600]})
+    for i in f1[:5]:
+        res.disagreements.append({"what": "determine_status differs from coq/model/StageStat.v", "case": r1[i]})
+    for i in f2[:5]:
+        res.disagreements.append({"what": "_determine_final_status differs from coq/model/StageStat.v", "case": r2[i]})
+    res.evaluations = len(c1) + len(c2)
+    res.distinct_nontrivial = len(set(c1)) + len(set(c2))
+    res.traces_validated = res.evaluations
+    res.rule = ("determine_status: every status combination of <= 2 (thorough 3) before-stages + tasks + after-stages (random beyond) x self "
+                "status x failure flags on real StageExecution objects; _determine_final_status: every top-level status list of length "
+                "<= 2 (all / sample of 3, random 4..6) x dependency shape x override x retry budget; distinct = distinct case terms")
+    res.samples = [r1[len(r1) // 2], r2[len(r2) // 2]]
+    res.distribution = {"determine_status_cases": len(c1), "final_status_cases": len(c2)}
     engine_corr.extend(ctx, res, PID)
     return res
 
